@@ -98,6 +98,10 @@ def weave_tree(dst, contracts=None, extra_ops=None):
         for (_a, _b, _l, rule, _o) in spans:
             w.report['insertions_per_rule'][rule] = w.report['insertions_per_rule'].get(rule, 0) + 1
         for (s, e, t, l) in wv.rew:
+            if l.endswith('#w9'):
+                w.report.setdefault('w9_sites', {}).setdefault(f'{rel}:{l}', 0)
+                w.report['w9_sites'][f'{rel}:{l}'] += 1
+                continue
             w.report['w8_sites'].append({'file': rel, 'line': text.count('\n', 0, s) + 1, 'label': l,
                                          'original': norm(text[s:e]), 'replacement': norm(t)})
         w.report['lost_hints'] += getattr(wv, 'lost_hints', [])
